@@ -202,12 +202,24 @@ class Driver:
         snap = projection(self.gw) if self.snapshot_in_callback else None
         self.cb_log.append((fields, snap))
         if self.cb_raise:
-            raise RuntimeError("callback raises on purpose")
+            raise self._user_error("callback")
+
+    def _user_error(self, what):
+        """User code fails in different ways: with a message, without arguments, with errno, with a KeyError."""
+        self._errors = getattr(self, "_errors", 0) + 1
+        kind = self._errors % 4
+        if kind == 0:
+            return TimeoutError()
+        if kind == 1:
+            return RuntimeError(f"{what} raises on purpose")
+        if kind == 2:
+            return ConnectionResetError(104, "Connection reset by peer")
+        return KeyError(what)
 
     def _pub(self, topic, payload, qos, retain):
         self.pubs.append((topic, payload, qos, retain))
         if self.pub_raise:
-            raise RuntimeError("publish raises on purpose")
+            raise self._user_error("publish")
 
     def _sub(self, topic, callback, qos):
         self.subs.append((topic, qos))
